@@ -4,6 +4,7 @@
 from math import prod
 from typing import Callable, Dict, List, Optional, Tuple, Union
 
+import jax
 import jax.numpy as jnp
 import pandas as pd
 
@@ -307,11 +308,29 @@ def integrate(
     )
     init_recording = jnp.expand_dims(init_recs, axis=0)
 
+    scan_fun, scan_inputs = _body_fun, externals
+    if length > nsteps_to_return:
+        # `prod(checkpoint_lengths)` is larger than the number of requested steps. The
+        # recordings of the surplus steps are truncated below. The surplus steps must
+        # also not change the state that is returned with `return_states=True`.
+        def scan_fun(state, inputs):
+            is_requested_step, externals = inputs
+            # `dict(state)` because `step_fn` updates the state dictionary in place.
+            new_state, recs = _body_fun(dict(state), externals)
+            new_state = jax.tree_util.tree_map(
+                lambda new, old: jnp.where(is_requested_step, new, old),
+                new_state,
+                state,
+            )
+            return new_state, recs
+
+        scan_inputs = (jnp.arange(length) < nsteps_to_return, externals)
+
     # Run simulation.
     all_states, recordings = nested_checkpoint_scan(
-        _body_fun,
+        scan_fun,
         all_states,
-        externals,
+        scan_inputs,
         length=length,
         nested_lengths=checkpoint_lengths,
     )
